@@ -87,6 +87,7 @@ SPEC = {
         "C19_nonvacuous_caller",
         "C19_launch_done_only_after_loop", "C19_launch_not_done_without_handover", "C19_launch_interrupted_is_error",
         "C19_launch_done_final", "C19_launch_refines", "C19_nonvacuous_launch",
+        "C19_launch_process_error_is_error", "C19_launch_process_error_recorded", "C19_nonvacuous_launch_error",
     ],
     "cases": {"quick": 240, "thorough": 6000},
     "shard": 120,
